@@ -421,6 +421,21 @@ def _is_empty_container(e):
     return isinstance(e, ast.Call) and isinstance(e.func, ast.Name) and e.func.id in ("list", "set", "tuple", "dict", "frozenset") and not e.args and not e.keywords
 
 
+def _no_walrus(text):
+    """a literal's text with `(name := value)` read as `value`"""
+    if ":=" not in text:
+        return text
+    e = _parse_lit(text)
+    if e is None:
+        return text
+
+    class T(ast.NodeTransformer):
+        def visit_NamedExpr(self, n):
+            return self.visit(n.value)
+
+    return A.norm(T().visit(e))
+
+
 def _parse_lit(text):
     try:
         return ast.parse(text, mode="eval").body
@@ -793,60 +808,40 @@ def check_hash_input_coverage(ck, R):
             raise AnalysisError("code object attribute %r of this interpreter is not classified in the checker's table" % a)
     unit = _CodeHasher(ck)
     outer, h, obj = unit.outer, unit.dig, unit.obj
-    # the variable whose JSON feeds the digest
-    ups = [c for c in h.calls("update")]
-    feed = None
-    for c in ups:
-        # json.dumps(<list>) may be passed directly or through a temporary
-        for d in [x for a_ in c.args for x in _flow(h, a_).values() if isinstance(x, ast.Call) and A.call_attr(x) == "dumps"]:
-            if d.args and isinstance(d.args[0], ast.Name):
-                feed = d.args[0].id
-    ck.need(feed is not None, "hash_if_code_object: no sha256.update(json.dumps(<list>)) found")
+    # what reaches the digest: everything the arguments of `<hasher>.update(...)` / `hashlib.sha256(...)` are computed from,
+    # followed through temporaries, through what is appended to / stored in a local in place, and through loops
+    ups = [c for c in h.calls("update") if isinstance(A.call_recv(c), ast.Name) and c.args and h.nodes(c)]
+    sinks = [(a_, h.nodes(c)[0]) for c in ups + [c for c in h.calls() if A.call_dotted(c) in ("hashlib.sha256", "sha256") and h.nodes(c)] for a_ in c.args]
+    ck.need(bool(sinks), "%s: no digest is fed (<hasher>.update(...) / hashlib.sha256(...))" % h.fi.name)
+    fed_nodes = _backward_slice(h, sinks, control_dependence=False)
     consumed = {}
     narrowed = {}
     NARROWING = {"len", "bool", "hash", "set", "frozenset", "min", "max", "any", "all", "sum", "id", "type"}
-    def scan(expr, where):
-        parents = {}
-        for p_ in ast.walk(expr):
-            for ch in ast.iter_child_nodes(p_):
-                parents[id(ch)] = p_
-        for n in ast.walk(expr):
-            if isinstance(n, ast.Attribute) and isinstance(n.value, ast.Name) and n.value.id == obj and n.attr.startswith("co_"):
-                par = parents.get(id(n))
-                if (isinstance(par, ast.Subscript) and par.value is n) or \
-                        (isinstance(par, ast.Call) and isinstance(par.func, ast.Name) and par.func.id in NARROWING and n in par.args):
-                    # only a part / a summary of the attribute is hashed
-                    narrowed.setdefault(n.attr, par)
-                    continue
-                consumed.setdefault(n.attr, where)
-            if isinstance(n, ast.Call) and A.call_attr(n) == "getattr" and len(n.args) >= 2 and A.norm(n.args[0]) == obj and A.const_str(n.args[1]):
-                consumed.setdefault(A.const_str(n.args[1]), where)
-    def roots(expr):
-        """the expression and the values of the temporaries it is built from (transitively)"""
-        out, seen, work = [expr], set(), [(expr, None)]
-        while work:
-            (e, at) = work.pop()
-            ats = [at] if at is not None else h.nodes(e)
-            for a_ in ats:
-                for n in ast.walk(e):
-                    if isinstance(n, ast.Name) and isinstance(n.ctx, ast.Load) and n.id != feed:
-                        for d in h.df.reaching(a_, n.id):
-                            if d.value is not None and d.kind in ("assign", "aug") and (d.node, d.name) not in seen:
-                                seen.add((d.node, d.name))
-                                out.append(d.value)
-                                work.append((d.value, d.node))
-        return out
 
-    feed_assigns = [s_ for s_ in h.stmts((ast.Assign, ast.AnnAssign)) if getattr(s_, "value", None) is not None
-                    and any(isinstance(t, ast.Name) and t.id == feed for t in (s_.targets if isinstance(s_, ast.Assign) else [s_.target]))]
-    for s in feed_assigns:
-        for e in roots(s.value):
-            scan(e, s)
-    for c in h.calls("append") + h.calls("extend"):
-        if A.norm(A.call_recv(c)) == feed:
-            for a in c.args:
-                for e in roots(a):
-                    scan(e, c)
+    def node_of(n):
+        st = h.stmt_of(n)
+        ns = h.nodes(st) if st is not None else []
+        return ns[0] if ns else None
+
+    for n in fed_nodes.values():
+        attrs = []
+        if isinstance(n, ast.Attribute) and isinstance(n.value, ast.Name) and n.value.id == obj and n.attr.startswith("co_"):
+            attrs = [n.attr]
+        elif isinstance(n, ast.Call) and A.call_attr(n) == "getattr" and isinstance(n.func, ast.Name) and len(n.args) >= 2 and A.norm(n.args[0]) == obj:
+            # the attribute name: a literal, or a variable ranging over literals (table-driven)
+            nm_alts = _alternatives(h, n.args[1], node_of(n)) if node_of(n) is not None else [(n.args[1], None)]
+            attrs = [A.const_str(e) for (e, _a) in nm_alts if A.const_str(e)] if all(A.const_str(e) for (e, _a) in nm_alts) else []
+        if not attrs:
+            continue
+        par = h.pm.get(n)
+        if (isinstance(par, ast.Subscript) and par.value is n) or \
+                (isinstance(par, ast.Call) and isinstance(par.func, ast.Name) and par.func.id in NARROWING and n in par.args):
+            # only a part / a summary of the attribute is hashed
+            for a_ in attrs:
+                narrowed.setdefault(a_, par)
+            continue
+        for a_ in attrs:
+            consumed.setdefault(a_, n)
     for attr, why in CODE_RELEVANT.items():
         ok = attr in consumed
         if not ok and attr in narrowed:
@@ -856,9 +851,9 @@ def check_hash_input_coverage(ck, R):
             continue
         ck.ob(R, h.key(None, attr), ok, "%s reaches the digest" % attr if ok else
               "%s (%s) is not part of the code hash: an edit that only changes it keeps the version, and a stale result is served" % (attr, why), h.where())
-    # co_consts recursion: some iteration over <obj>.co_consts that maps every element through the hasher
-    # itself (directly, or through a local lambda / def that does nothing but call the hasher on its
-    # argument) feeds the list that is digested
+    # co_consts recursion: some iteration over <obj>.co_consts that maps EVERY element through the hasher itself (the
+    # digester or a dispatcher in front of it; directly, or through a local lambda / def that does nothing but call the
+    # hasher on its argument) reaches the digest - a comprehension, map(), or a list filled by one loop
     def is_hasher_call(call, var, depth=0):
         if not (isinstance(call, ast.Call) and call.args and isinstance(call.args[0], ast.Name) and call.args[0].id == var):
             return False
@@ -879,25 +874,34 @@ def check_hash_input_coverage(ck, R):
                     return True
         return False
 
+    def is_hasher_ref(f):
+        """a one-argument callable that applies the hasher to its argument (for map())"""
+        if isinstance(f, ast.Name) and f.id in unit.entries:
+            fi_ = unit.funcs[f.id]
+            a_ = fi_.node.args
+            required = [x.arg for x in a_.posonlyargs + a_.args][: len(a_.posonlyargs + a_.args) - len(a_.defaults)]
+            return required == [unit.entries[f.id]]
+        if isinstance(f, ast.Lambda) and len(f.args.args) == 1 and isinstance(f.body, ast.Call):
+            return is_hasher_call(f.body, f.args.args[0].arg)
+        return False
+
     rec = False
-    feed_flow = {}
-    for s in feed_assigns:
-        _flow(h, s.value, None, None, feed_flow)
-    for c in h.calls("append") + h.calls("extend"):
-        if A.norm(A.call_recv(c)) == feed:
-            for a in c.args:
-                _flow(h, a, None, None, feed_flow)
-    for comp in [n for n in feed_flow.values() if isinstance(n, (ast.ListComp, ast.GeneratorExp))]:
-        g0 = comp.generators[0]
-        if len(comp.generators) == 1 and not g0.ifs and isinstance(g0.target, ast.Name) and A.norm(g0.iter) == obj + ".co_consts" \
-                and is_hasher_call(comp.elt, g0.target.id):
+    for n in fed_nodes.values():
+        spec = None
+        if isinstance(n, (ast.ListComp, ast.GeneratorExp)) or (isinstance(n, ast.Name) and isinstance(n.ctx, ast.Load) and h.df.is_local(n.id) and n.id not in h.fi.params):
+            at_ = node_of(n)
+            spec = _collection_spec(h, n, at_) if at_ is not None else None
+        if spec is not None and not spec["atoms"] and h.xnorm(spec["iter"], spec["iter_at"]) == obj + ".co_consts" and is_hasher_call(spec["elt"], spec["var"]):
+            rec = True
+        if isinstance(n, ast.Call) and isinstance(n.func, ast.Name) and n.func.id == "map" and len(n.args) == 2 and node_of(n) is not None \
+                and h.xnorm(n.args[1], node_of(n)) == obj + ".co_consts" and is_hasher_ref(n.args[0]):
             rec = True
     ck.ob(R, h.key(None, "consts-recursive"), rec, "constants are hashed recursively (nested functions, lambdas, comprehensions)" if rec else
           "co_consts is not hashed through the hasher itself: edits inside nested code objects are invisible", h.where())
     # salt / environment
     def fed(param):
-        """some update of the digester is given (something built from) what stands for fn_code_hash's parameter `param`"""
-        return any(isinstance(x, ast.Name) and unit.stands_for(h.fi, x.id) == param for c in ups for a_ in c.args for x in ast.walk(a_))
+        """something that stands for fn_code_hash's parameter `param` reaches the digest"""
+        return any(isinstance(x, ast.Name) and isinstance(x.ctx, ast.Load) and unit.stands_for(h.fi, x.id) == param for x in fed_nodes.values())
 
     ok_env = fed("environment") and fed("salt")
     ck.ob(R, h.key(None, "salt-and-environment"), ok_env, "salt and environment feed the digest" if ok_env else
@@ -975,6 +979,13 @@ def check_hash_input_coverage(ck, R):
     # some loop replaces the hashed object by its __wrapped__ (whatever the spelling of the loop condition)
     unw = [s_ for s_ in outer.stmts(ast.Assign) if isinstance(s_.value, ast.Attribute) and s_.value.attr == "__wrapped__" and isinstance(s_.value.value, ast.Name)
            and any(isinstance(t, ast.Name) and t.id == s_.value.value.id for t in s_.targets) and outer.enclosing(s_, ast.While) is not None]
+    # ... or inspect.unwrap does it, for the object whose __code__ is read
+    hashed_obj = None
+    if code_reads:
+        subj_ = code_reads[0].args[0] if isinstance(code_reads[0], ast.Call) else code_reads[0].value
+        hashed_obj = subj_.id if isinstance(subj_, ast.Name) else None
+    unw += [s_ for s_ in outer.stmts(ast.Assign) if isinstance(s_.value, ast.Call) and A.call_attr(s_.value) == "unwrap" and len(s_.value.args) == 1
+            and hashed_obj is not None and any(isinstance(t, ast.Name) and t.id == hashed_obj for t in s_.targets)]
     ck.ob(R, outer.key(None, "unwrap"), bool(unw), "decorator wrappers are unwrapped before hashing" if unw else
           "fn_code_hash no longer unwraps __wrapped__ chains", outer.where())
     # MementoFunction.__init__ stores the code hash unless a version is declared
@@ -1026,7 +1037,8 @@ def check_rule_kinds_contribute(ck, R):
             ok = "call:fn_code_hash" in deps and "attr:self.src_fn" in deps
             msg = "code hash of the plain function"
         elif nm == "GlobalVariableHashRule":
-            ok = "attr:self.last_value" in deps and "call:sha256" in deps
+            ok = ("attr:self.last_value" in deps and "call:sha256" in deps) or \
+                _digest_fed_and_returned(fa, lambda arg, at: "attr:self.last_value" in fa.df.deps(arg, at))
             msg = "digest of the serialised value"
         elif nm == "UndefinedSymbolHashRule":
             ok = all(r.value is None or A.is_none(r.value) for r in fa.returns())
@@ -1061,6 +1073,42 @@ def check_rule_kinds_contribute(ck, R):
 
 
 # --------------------------------------------------------------------------------- C01.R3
+_LIST_MUTATORS = {"sort", "append", "extend", "insert", "remove", "pop", "clear", "reverse", "__setitem__", "__delitem__"}
+
+
+def _sorted_source(fa, e, at, depth=6):
+    """If `e` (evaluated at CFG node `at`) is a SORTED sequence - `sorted(X, ...)` itself, a local alias or a field of self that
+    this function assigned it to, a `list(...)` copy of one, or a `list(X)` copy that was sorted in place (`.sort(...)`, its
+    only change) on every path before this point - returns (the sorted() / .sort() call, X, CFG node at which X is read)."""
+    if depth <= 0 or e is None or at is None:
+        return None
+    if isinstance(e, ast.Call) and isinstance(e.func, ast.Name) and e.func.id == "sorted" and len(e.args) == 1:
+        return (e, e.args[0], at)
+    if isinstance(e, ast.Call) and isinstance(e.func, ast.Name) and e.func.id in ("list", "tuple") and len(e.args) == 1 and not e.keywords:
+        return _sorted_source(fa, e.args[0], at, depth - 1)
+    if isinstance(e, ast.Name):
+        ds = fa.df.reaching(at, e.id)
+        if len(ds) != 1 or ds[0].kind != "assign" or ds[0].value is None:
+            return None
+        d = ds[0]
+        r = _sorted_source(fa, d.value, d.node, depth - 1)
+        if r is not None:
+            return r
+        v = d.value
+        if isinstance(v, ast.Call) and isinstance(v.func, ast.Name) and v.func.id == "list" and len(v.args) == 1 and not v.keywords:
+            muts = [c for c in fa.calls() if isinstance(A.call_recv(c), ast.Name) and A.call_recv(c).id == e.id and A.call_attr(c) in _LIST_MUTATORS]
+            stores = [x for x in A.walk_body(fa.node) if isinstance(x, ast.Subscript) and isinstance(x.ctx, (ast.Store, ast.Del)) and isinstance(x.value, ast.Name) and x.value.id == e.id]
+            if len(muts) == 1 and not stores and A.call_attr(muts[0]) == "sort" and not muts[0].args and fa.nodes(muts[0]) \
+                    and at not in fa.nodes(muts[0]) and fa.cfg.must_pass(fa.nodes(muts[0]), at) and fa.cfg.must_pass([d.node], fa.nodes(muts[0])[0]):
+                return (muts[0], v.args[0], d.node)
+        return None
+    if isinstance(e, ast.Attribute) and isinstance(e.value, ast.Name) and e.value.id == "self":
+        asg = [s_ for s_ in fa.stmts(ast.Assign) if fa.nodes(s_) and any(A.dotted(t) == "self." + e.attr for t in s_.targets)]
+        if len(asg) == 1 and at not in fa.nodes(asg[0]) and fa.cfg.must_pass(fa.nodes(asg[0]), at):
+            return _sorted_source(fa, asg[0].value, fa.nodes(asg[0])[0], depth - 1)
+    return None
+
+
 def _digest_feed(fa):
     """Where the per-rule pieces enter the version digest, whatever the spelling: (loop) a `for` whose body calls
     `<hasher>.update(piece)`, or (join) `<hasher>.update(sep.join(<pieces>))` / `hashlib.sha256(sep.join(<pieces>))` where
@@ -1145,15 +1193,18 @@ def check_digest_consumes_rules(ck, R):
     ck.need(feed is not None, "_recompute_version: expected one place that feeds the rule hashes to the digest (a loop updating a hasher, or a hasher over a join of the pieces)")
 
     def all_sorted(it, at):
-        """is the iterated collection exactly sorted(<the result set>)?"""
-        d_ = fa.df.deps(it, at)
-        ok_ = ("call:sorted" in d_ or "call:sort" in d_) and ("local:" + res.id in d_ or any(A.norm(x.value) == "set()" for x in fa.df.reaching(at, res.id)))
-        src = it
-        if isinstance(it, ast.Name):
-            ds = fa.df.reaching(at, it.id)
-            if len(ds) == 1 and ds[0].value is not None:
-                src = ds[0].value
-        return ok_ and isinstance(src, ast.Call) and A.call_attr(src) == "sorted" and [A.norm(a) for a in src.args] == [res.id]
+        """is the iterated collection exactly the result set, sorted (sorted(<set>), or a list copy of it sorted in place;
+        through aliases / self._hash_rules)?"""
+        r_ = _sorted_source(fa, it, at)
+        if r_ is None:
+            return False
+        (_call, src, src_at) = r_
+        if not isinstance(src, ast.Name):
+            return False
+        if src.id == res.id:
+            return True
+        ds = fa.df.reaching(src_at, src.id)
+        return len(ds) == 1 and ds[0].value is not None and A.norm(ds[0].value) == res.id
 
     ok = all_sorted(lp.ast.iter, lp.id) and all_sorted(feed["iter"], feed["iter_at"])
     ck.ob(R, fa.key(lp.ast, "all-rules"), ok, "the digest loop iterates sorted(<all collected rules>)" if ok else
@@ -1173,7 +1224,11 @@ def check_digest_consumes_rules(ck, R):
     piece = feed["piece"]
 
     def is_hash(e):
-        return (same_loop and "call:compute_hash" in fa.deps(e)) or any(isinstance(x, ast.Call) and A.call_attr(x) == "compute_hash" and A.norm(A.call_recv(x)) == fv for x in ast.walk(e)) \
+        try:
+            e = fa.expand(e, fa.nodes(e)[0]) if fa.nodes(e) else e   # a temporary (walrus, alias) that holds the rule's hash field
+        except AnalysisError:
+            pass
+        return (same_loop and "call:compute_hash" in fa.deps(piece)) or any(isinstance(x, ast.Call) and A.call_attr(x) == "compute_hash" and A.norm(A.call_recv(x)) == fv for x in ast.walk(e)) \
             or any(isinstance(x, ast.Attribute) and x.attr in hash_attrs and isinstance(x.value, ast.Name) and x.value.id == fv for x in ast.walk(e))
 
     okh = True
@@ -1190,13 +1245,13 @@ def check_digest_consumes_rules(ck, R):
             # as `if h is not None: update`, `if h is None: continue`, or nested), and an iteration is abandoned
             # early only when the hash is None; the loop is never left early
             cu = fa.conditions(ups[0])
-            okh = cu is not None and len(cu) == 1 and len(next(iter(cu))) == 1 and all(l[0] in none_lits and l[1] is False for l in next(iter(cu)))
+            okh = cu is not None and len(cu) == 1 and len(next(iter(cu))) == 1 and all(_no_walrus(l[0]) in none_lits and l[1] is False for l in next(iter(cu)))
             for s_ in A.walk_local(fl):
                 if isinstance(s_, (ast.Break, ast.Return)):
                     okh = False
                 if isinstance(s_, ast.Continue):
                     cc = fa.conditions(s_)
-                    okh = okh and cc is not None and all(any(l[0] in none_lits and l[1] is True for l in conj) for conj in cc)
+                    okh = okh and cc is not None and all(any(_no_walrus(l[0]) in none_lits and l[1] is True for l in conj) for conj in cc)
     else:
         # the pieces are collected (comprehension / filling loop) and digested at once: the only filter is `hash is None`,
         # and the collection is made after every rule was given its hash
@@ -1259,9 +1314,10 @@ def check_recompute_from_scratch(ck, R):
     ck.need(feed is not None, "_recompute_version: expected one place that feeds the rule hashes to the digest (a loop updating a hasher, or a hasher over a join of the pieces)")
     fv, piece = feed["var"], feed["piece"]
     feed_nodes = fa.nodes(piece) or [feed["iter_at"]]
-    loop_vars = {n.ast.target.id: n.id for n in fa.cfg.nodes if n.kind == "for" and isinstance(n.ast.target, ast.Name)}
+    loops = [n for n in fa.cfg.nodes if n.kind == "for" and isinstance(n.ast.target, ast.Name) and n.id in fa.cfg.reachable_nodes()]
+    loop_vars = {n.ast.target.id for n in loops}
 
-    def computed_now(e, at):
+    def computed_now(e):
         """does the value of `e` come from <rule>.compute_hash() of a rule the function is iterating over?"""
         return any(isinstance(x, ast.Call) and A.call_attr(x) == "compute_hash" and isinstance(A.call_recv(x), ast.Name) and A.call_recv(x).id in loop_vars
                    for x in ast.walk(e))
@@ -1277,40 +1333,54 @@ def check_recompute_from_scratch(ck, R):
                 out.append((x, a_))
         return out
 
-    origins = []   # (what is read in the piece, [(alternative, node)], [nodes of the assignments it is read from] or None)
+    def assigned_before(asg_nodes, at, read):
+        """is the rule's field assigned in this recomputation before it is read at `at`: earlier in the same iteration when the read
+        is in a loop over the rules that assigns it, else by a loop over the same collection that assigns it in every iteration"""
+        lp_ = fa.enclosing(read, (ast.For, ast.AsyncFor)) if hasattr(read, "lineno") and fa.pm.get(read) is not None else None
+        while lp_ is not None and not (isinstance(lp_.target, ast.Name) and fa.nodes(lp_) and set(asg_nodes) & fa.cfg.reach([fa.nodes(lp_)[0]], removed=(), include_start=False)
+                                       and any(fa.inside(fa.cfg.node(i).ast, lp_) for i in asg_nodes)):
+            lp_ = fa.enclosing(lp_, (ast.For, ast.AsyncFor))
+        if lp_ is not None:
+            head = fa.nodes(lp_)[0]
+            return fa.cfg.must_pass(asg_nodes, at, start=head, edge_ok=lambda s_, d_, l_, head=head: d_ != head)
+        same = [n.id for n in loops if fa.xnorm(n.ast.iter, n.id) == fa.xnorm(feed["iter"], feed["iter_at"])]
+        return any(_every_iteration_passes(fa, h_, asg_nodes) and fa.cfg.must_pass([h_], at) for h_ in same)
+
+    stale = []
+
+    def origin(e, at, read, depth=5):
+        """follow one thing read for the piece back to where its value was made; records what is not made by compute_hash() now"""
+        for (x, a_) in alternatives(e, at):
+            if computed_now(x):
+                continue
+            if isinstance(x, ast.Attribute) and isinstance(x.value, ast.Name) and (x.value.id in loop_vars or x.value.id == fv) and depth > 0:
+                asg = [s_ for s_ in fa.stmts(ast.Assign) if fa.nodes(s_) and any(isinstance(t, ast.Attribute) and t.attr == x.attr and isinstance(t.value, ast.Name)
+                                                                                 and t.value.id in loop_vars for t in s_.targets)]
+                if not asg:
+                    stale.append((x, "`%s`, which this recomputation never assigns" % A.norm(x)))
+                    continue
+                if not assigned_before(fa.nodes_all(asg), a_, x if fa.pm.get(x) is not None else read):
+                    stale.append((x, "`%s` as it was before this recomputation (on some path it is read before being assigned)" % A.norm(x)))
+                    continue
+                for s_ in asg:
+                    origin(s_.value, fa.nodes(s_)[0], s_.value, depth - 1)
+                continue
+            stale.append((x, "`%s`%s" % (A.short(x, 50), (" (= `%s`)" % fa.xnorm(x, a_)[:90]) if fa.xnorm(x, a_) != A.norm(x) else "")))
+
+    n_read = 0
     for x in ast.walk(piece):
         if isinstance(x, ast.Attribute) and isinstance(x.value, ast.Name) and x.value.id == fv and isinstance(x.ctx, ast.Load) \
                 and not (isinstance(fa.pm.get(x), ast.Call) and fa.pm.get(x).func is x):
-            asg = [s_ for s_ in fa.stmts(ast.Assign) if fa.nodes(s_) and any(isinstance(t, ast.Attribute) and t.attr == x.attr and isinstance(t.value, ast.Name)
-                                                                             and t.value.id in loop_vars for t in s_.targets)]
-            alts_ = [a_ for s_ in asg for a_ in alternatives(s_.value, fa.nodes(s_)[0])]
-            origins.append((x, alts_, fa.nodes_all(asg)))
+            n_read += 1
+            for at in feed_nodes:
+                origin(x, at, x)
         elif isinstance(x, ast.Name) and isinstance(x.ctx, ast.Load) and x.id != fv and fa.df.is_local(x.id) and x.id not in fa.fi.params:
-            origins.append((x, [a_ for at in feed_nodes for a_ in alternatives(x, at)], None))
+            n_read += 1
+            for at in feed_nodes:
+                origin(x, at, x)
         elif isinstance(x, ast.Call) and A.call_attr(x) == "compute_hash":
-            origins.append((x, [(x, feed_nodes[0])], None))
-    ck.need(bool(origins), "_recompute_version: what is digested for a rule (`%s`) reads neither the rule nor a local" % A.short(piece, 50))
-    stale = []
-    for (x, alts_, asg_nodes) in origins:
-        if not alts_:
-            stale.append((x, "`%s`, which this recomputation never assigns" % A.norm(x)))
-        for (e, at) in alts_:
-            if not computed_now(e, at):
-                stale.append((e, "`%s`%s" % (A.short(e, 50), (" (= `%s`)" % fa.xnorm(e, at)[:90]) if fa.xnorm(e, at) != A.norm(e) else "")))
-        if asg_nodes is not None and alts_:
-            # the field is assigned in this recomputation before it is read, in the same iteration when both are in one loop
-            for fn_ in feed_nodes:
-                lp_ = fa.enclosing(piece, (ast.For, ast.AsyncFor))
-                head = fa.nodes(lp_)[0] if lp_ is not None and fa.nodes(lp_) and isinstance(lp_.target, ast.Name) and lp_.target.id == fv else None
-                if head is not None:
-                    # read in the loop that assigns it: assigned earlier in the same iteration
-                    okp = fa.cfg.must_pass(asg_nodes, fn_, start=head, edge_ok=lambda s_, d_, l_, head=head: d_ != head)
-                else:
-                    # read after a loop over the same collection that assigns it in every iteration
-                    same = [h_ for h_ in loop_vars.values() if fa.xnorm(fa.cfg.node(h_).ast.iter, h_) == fa.xnorm(feed["iter"], feed["iter_at"])]
-                    okp = any(_every_iteration_passes(fa, h_, asg_nodes) and fa.cfg.must_pass([h_], fn_) for h_ in same)
-                if not okp:
-                    stale.append((x, "`%s` as it was before this recomputation (on some path it is read before being assigned)" % A.norm(x)))
+            n_read += 1
+    ck.need(n_read > 0, "_recompute_version: what is digested for a rule (`%s`) reads neither the rule nor a local" % A.short(piece, 50))
     ok = not stale
     ck.ob(R, fa.key(feed["stmt"], "hash-computed-now"), ok, "every rule's hash is computed in the recomputation that digests it" if ok else
           "_recompute_version can digest for a rule %s instead of what rule.compute_hash() returns now: a value remembered from an earlier evaluation "
@@ -2006,7 +2076,7 @@ def check_ordered_iteration(ck, R):
     feed = _digest_feed(fa)
     ck.need(feed is not None, "_recompute_version: expected one place that feeds the rule hashes to the digest (a loop updating a hasher, or a hasher over a join of the pieces)")
     d = fa.df.deps(feed["iter"], feed["iter_at"])
-    ok = "call:sorted" in d
+    ok = "call:sorted" in d or _sorted_source(fa, feed["iter"], feed["iter_at"]) is not None
     site = feed["site"] if feed["kind"] == "loop" else fa.stmt_of(feed["site"])
     ck.ob(R, fa.key(site, "sorted"), ok, "rules are digested in sorted order" if ok else
           "the digest loop iterates an unordered set: the version depends on hash randomisation / definition order", fa.where(site))
